@@ -260,7 +260,7 @@ let run_succ synthetic a =
     let sp = get (sp_new_from_batch_append h dflt old new_leafs) in
     let nw = List.fold_left (fun acc l -> fst (get (acc_append h acc l))) old new_leafs in
     let bad = atom (zi 777777) in
-    let j = int_of_string arg in
+    let j = try int_of_string arg with _ -> 0 in
     let (sp', old', new') =
       match tweak with
       | "ok" -> (sp, old, nw)
@@ -274,6 +274,17 @@ let run_succ synthetic a =
       | "newpk" -> (sp, old, (fst nw, set_at j bad (snd nw)))
       | "oldlong" -> (sp, (fst old, snd old @ [atom (zi 5)]), nw)
       | "oldshort" -> (sp, (fst old, take (List.length (snd old) - 1) (snd old)), nw)
+      | "oldcut" ->
+          (* drop the last old peak together with its segment of the proof *)
+          let oc = fst old in
+          if ZZ.equal oc ZZ.zero then (sp, old, nw)
+          else begin
+            let hgt = ZZ.trailing_zeros oc in
+            let offset = ZZ.sub oc (ZZ.shift_left ZZ.one hgt) in
+            let ((_, hh), _) = locate (fst nw) offset in
+            let seg = ZZ.to_int hh - hgt in
+            (take (List.length sp - seg) sp, (oc, take (List.length (snd old) - 1) (snd old)), nw)
+          end
       | "oldshortf" -> (sp, (fst old, drop 1 (snd old)), nw)
       | "newlong" -> (sp, old, (fst nw, snd nw @ [atom (zi 5)]))
       | "newshort" -> (sp, old, (fst nw, take (List.length (snd nw) - 1) (snd nw)))
@@ -285,7 +296,8 @@ let run_succ synthetic a =
     let v0 = sp_verify_v0 h deq dflt sp' old' new' in
     let v1 = sp_verify_v1 h deq dflt sp' old' new' in
     let spec = succ_verify_spec h deq dflt sp' old' new' in
-    Printf.sprintf "S=%s V0=%s V1=%s SP=%s" (show_ds sp) (vd v0) (vd v1) (if spec then "T" else "F")
+    let shown = let x = show_ds sp in if List.length sp > 32 then "#" ^ fnv x else x in
+    Printf.sprintf "S=%s V0=%s V1=%s SP=%s" shown (vd v0) (vd v1) (if spec then "T" else "F")
   with Panic -> "PANIC"
 
 (* ------------------------------------------------------------------ membership verification claims *)
